@@ -1,15 +1,20 @@
-"""C08 -- see DESIGN.md section 5.  Deductive targets are added below the bounded import."""
+"""C08 -- splitting a command string never fails and inverts shell-style quoting."""
+from pyvc.contracts import REG as R
+from . import token_contracts as tc
+
 PROP = "C08"
 LEVEL = "other"
-EXPLANATION = "under construction: bounded run-time contract checks on the real code; deductive obligations are being added"
-UNDER_CONSTRUCTION = True
-NOT_APPLICABLE = "check under construction in this round (see DESIGN.md section 5 for the plan); not claimed yet"
-TARGETS = []
+EXPLANATION = "under construction"
+HANG_IS_VIOLATION = True
+TARGETS = [tc.TP + m for m in ("_next", "_parse_escape_sequence", "_parse_quoted_string", "_parse_token", "_parse", "parse")]
+TARGETS += [tc.M_ARGV + ":ArgvArgs.__init__", tc.M_SARGS + ":StringArgs.__init__",
+            tc.M_ARGV + ":ArgvArgs.has_option_token", tc.M_SARGS + ":StringArgs.has_option_token",
+            tc.M_ARGV + ":ArgvArgs.has_token", tc.M_SARGS + ":StringArgs.has_token"]
 LEMMAS = []
 try:
-    from .C08_bounded import bounded, BOUNDED_RULE  # noqa: F401
+    from .C08_bounded import bounded, BOUNDED_RULE  # noqa
     try:
-        from .C08_bounded import replay_bounded  # noqa: F401
+        from .C08_bounded import replay_bounded  # noqa
     except ImportError:
         pass
 except ImportError:
